@@ -42,7 +42,7 @@ def main(tier, seed):
                     timeout=2400, site_of=lambda m: "%s(ok=%s)" % (m.get("event", {}).get("e"), m.get("event", {}).get("ok")))
     # the collector's result, seen from outside: at the end of every collection nothing unreachable is left, and once a run
     # is over (no guard alive) no object still counts as guarded - such an object could never be reclaimed again
-    heap_trace(run, ["alloc", "std", "host"], 12 if not thorough else 80, 6 if not thorough else 20, seed, "C05-heap",
+    heap_trace(run, ["alloc", "std", "host", "closures"], 12 if not thorough else 80, 6 if not thorough else 20, seed, "C05-heap",
                lambda why: "survived" in why or "guarded" in why)
     run.evaluations += stats["runs"]
     for i in range(stats["runs"]):
